@@ -574,6 +574,125 @@ Proof.
   eexists. split; [left; reflexivity|]. vm_compute. reflexivity.
 Qed.
 
+(* ------------------------------------------------------------------ *)
+(* the fuel is not a hidden cut: a run that ends (in anything but [Fuel]) *)
+(* ends the same way with more fuel                                     *)
+(* ------------------------------------------------------------------ *)
+Section FuelMono.
+Variable N : num.
+Variables (lin : bool) (step minsma : N) (maxsma maxrit : option N) (top_test : bool).
+
+Lemma outward_S f sma noiter first l s calls :
+  outward N lin step maxsma maxrit (S f) sma noiter first l s calls =
+  let calls := calls ++ [mkcall N sma noiter false first] in
+  match fit_isophote N maxrit sma noiter l s with
+  | None => PStop N (Starved N) calls
+  | Some (i, l1, s1) =>
+      match out_failure N maxsma i l1 noiter with
+      | AEmpty _ => PStop N (Ret N []) calls
+      | AErr _ => PStop N (IndexErr N) calls
+      | ABreak _ l2 => PDone N l2 s1 calls
+      | ACont _ l2 noiter' =>
+          match last_opt N l2 with
+          | None => PStop N (IndexErr N) calls
+          | Some j =>
+              let sma' := update_sma N lin (i_sma N j) step in
+              match maxsma with
+              | Some m => if truthy N m && leb N m sma' then PDone N l2 s1 calls
+                          else outward N lin step maxsma maxrit f sma' noiter' false l2 s1 calls
+              | None => outward N lin step maxsma maxrit f sma' noiter' false l2 s1 calls
+              end
+          end
+      end
+  end.
+Proof. reflexivity. Qed.
+
+Lemma outward_fuel_mono : forall f sma noiter first l s calls,
+  (forall c, outward N lin step maxsma maxrit f sma noiter first l s calls <> PStop N (Fuel N) c) ->
+  outward N lin step maxsma maxrit (S f) sma noiter first l s calls =
+  outward N lin step maxsma maxrit f sma noiter first l s calls.
+Proof.
+  induction f as [|f IH]; intros sma noiter first l s calls H.
+  - exfalso. apply (H calls). reflexivity.
+  - rewrite (outward_S f sma noiter first l s calls) in H.
+    rewrite (outward_S (S f) sma noiter first l s calls), (outward_S f sma noiter first l s calls).
+    cbv zeta in *.
+    destruct (fit_isophote N maxrit sma noiter l s) as [[[i l1] s1]|]; auto.
+    destruct (out_failure N maxsma i l1 noiter); auto.
+    destruct (last_opt N l0); auto.
+    destruct maxsma as [m|].
+    + destruct (truthy N m && leb N m (update_sma N lin (i_sma N i0) step)); auto.
+    + auto.
+Qed.
+
+Lemma inward_S f sma istep l s calls :
+  inward N lin minsma maxrit top_test (S f) sma istep l s calls =
+  if top_test && negb (ltb N (pymax N minsma (n05 N)) sma) then PDone N l s calls else
+  let calls := calls ++ [mkcall N sma false true false] in
+  match fit_isophote N maxrit sma false l s with
+  | None => PStop N (Starved N) calls
+  | Some (i, l1, s1) =>
+      match (if (i_code N i <? 0)%Z then fix_last N l1 else Some l1) with
+      | None => PStop N (IndexErr N) calls
+      | Some l2 =>
+          if (i_code N i =? 3)%Z then PDone N l2 s1 calls
+          else match last_opt N l2 with
+               | None => PStop N (IndexErr N) calls
+               | Some j =>
+                   let sma' := update_sma N lin (i_sma N j) istep in
+                   if negb top_test && leb N sma' (pymax N minsma (n05 N)) then PDone N l2 s1 calls
+                   else inward N lin minsma maxrit top_test f sma' istep l2 s1 calls
+               end
+      end
+  end.
+Proof. reflexivity. Qed.
+
+Lemma inward_fuel_mono : forall f sma istep l s calls,
+  (forall c, inward N lin minsma maxrit top_test f sma istep l s calls <> PStop N (Fuel N) c) ->
+  inward N lin minsma maxrit top_test (S f) sma istep l s calls =
+  inward N lin minsma maxrit top_test f sma istep l s calls.
+Proof.
+  induction f as [|f IH]; intros sma istep l s calls H.
+  - exfalso. apply (H calls). reflexivity.
+  - rewrite (inward_S f sma istep l s calls) in H.
+    rewrite (inward_S (S f) sma istep l s calls), (inward_S f sma istep l s calls).
+    cbv zeta in *.
+    destruct (top_test && negb (ltb N (pymax N minsma (n05 N)) sma)); auto.
+    destruct (fit_isophote N maxrit sma false l s) as [[[i l1] s1]|]; auto.
+    destruct (if (i_code N i <? 0)%Z then fix_last N l1 else Some l1); auto.
+    destruct (i_code N i =? 3)%Z; auto.
+    destruct (last_opt N l0); auto.
+    destruct (negb top_test && leb N (update_sma N lin (i_sma N i0) istep) (pymax N minsma (n05 N))); auto.
+Qed.
+
+Lemma fit_image_fuel_mono f sma0 gsma fix_all s r calls :
+  fit_image N lin step minsma maxsma maxrit top_test f sma0 gsma fix_all s = (r, calls) ->
+  r <> Fuel N ->
+  fit_image N lin step minsma maxsma maxrit top_test (S f) sma0 gsma fix_all s = (r, calls).
+Proof.
+  unfold fit_image. destruct fix_all; auto.
+  set (sma := match sma0 with Some v => if truthy N v then v else gsma | None => gsma end).
+  intros H Hr.
+  assert (Ho : forall c, outward N lin step maxsma maxrit f sma false true [] s [] <> PStop N (Fuel N) c).
+  { intros c E. rewrite E in H. inversion H; subst. apply Hr; reflexivity. }
+  rewrite (outward_fuel_mono _ _ _ _ _ _ _ Ho).
+  destruct (outward N lin step maxsma maxrit f sma false true [] s []) as [l s1 calls1|r1 calls1]; auto.
+  destruct l as [|first rest]; auto.
+  destruct (reset_sma N lin (i_sma N first) step) as [sma_in istep].
+  assert (Hi : forall c, inward N lin minsma maxrit top_test f sma_in istep (first :: rest) s1 calls1 <> PStop N (Fuel N) c).
+  { intros c E. rewrite E in H. inversion H; subst. apply Hr; reflexivity. }
+  rewrite (inward_fuel_mono _ _ _ _ _ _ Hi). exact H.
+Qed.
+
+Lemma fit_image_fuel_independent f f' sma0 gsma fix_all s r calls : (f <= f')%nat ->
+  fit_image N lin step minsma maxsma maxrit top_test f sma0 gsma fix_all s = (r, calls) ->
+  r <> Fuel N ->
+  fit_image N lin step minsma maxsma maxrit top_test f' sma0 gsma fix_all s = (r, calls).
+Proof.
+  induction 1; auto. intros H1 H2. apply fit_image_fuel_mono; auto.
+Qed.
+End FuelMono.
+
 (* ================================================================== *)
 (* (C) fitter                                                          *)
 (* ================================================================== *)
